@@ -74,9 +74,11 @@ impl IntrinsicBuilder<'_> {
     ) -> Result<Vec<Sp<LowerArg>>, ErrorReported> {
         // full pattern match to fail when new fields are added
         let &IntrinsicInstrAbiParts {
-            num_instr_args, plain_args: ref plain_args_info,
+            num_instr_args, plain_args: ref plain_args_info, ref padding_indices,
             outputs: ref outputs_info, jump: ref jump_info, sub_id: sub_id_info,
         } = abi_parts;
+        // The indices in abi_parts count padding, but out_args has no entries for padding.
+        let without_padding = |index: usize| index - padding_indices.iter().filter(|&&p| p < index).count();
         // check that the caller's 'build' closure put all of the right things for this intrinsic
         assert_eq!(self.jump.is_some(), jump_info.is_some());
         assert_eq!(self.sub_id.is_some(), sub_id_info.is_some());
@@ -90,16 +92,18 @@ impl IntrinsicBuilder<'_> {
         // padding gets added later during args -> bytes conversion so we don't need to fill it
 
         // fill in all of the options
-        if let (Some(goto_ast), &Some(jump_info)) = (self.jump, jump_info) {
-            populate_time_args(goto_ast, jump_info, &mut out_args);
+        if let (Some(goto_ast), &Some((jump_index, jump_order))) = (self.jump, jump_info) {
+            populate_time_args(goto_ast, (without_padding(jump_index), jump_order), &mut out_args);
         }
 
         for (value, &index) in self.plain_args.into_iter().zip(plain_args_info) {
+            let index = without_padding(index);
             assert!(out_args[index].is_none());
             out_args[index] = Some(value);
         }
 
         if let Some((value, index)) = self.sub_id.zip(sub_id_info) {
+            let index = without_padding(index);
             assert!(out_args[index].is_none());
             out_args[index] = Some(value);
         }
@@ -109,6 +113,7 @@ impl IntrinsicBuilder<'_> {
                 abi_parts::OutputArgMode::FloatAsInt => sp!(var.span => var.value.with_float_reg_encoded_as_int()),
                 abi_parts::OutputArgMode::Natural => var,
             };
+            let index = without_padding(index);
             assert!(out_args[index].is_none());
             out_args[index] = Some(var);
         }
